@@ -3,6 +3,7 @@ package sim
 import (
 	"encoding/hex"
 	"encoding/json"
+	"sync"
 
 	"github.com/btcsuite/btcd/btcec/v2"
 )
@@ -25,6 +26,7 @@ type Peer struct {
 	PaidInvoices []EvPaid
 	// OnMsg, if set, is called for every message delivered to the peer.
 	OnMsg func(p *Peer, m Received)
+	mu    sync.Mutex // Inbox / PaidInvoices when several pumps deliver concurrently
 }
 
 // AddPeer registers a scripted peer.
@@ -38,7 +40,9 @@ func (w *World) AddPeer(name string) *Peer {
 
 func (p *Peer) receive(from string, typ int, payload []byte) {
 	m := Received{From: from, Type: typ, Payload: payload}
+	p.mu.Lock()
 	p.Inbox = append(p.Inbox, m)
+	p.mu.Unlock()
 	p.w.Emit(p.Name, 0, "peer.recv", EvMsg{Peer: from, Type: typ, Payload: payload})
 	if p.OnMsg != nil {
 		p.OnMsg(p, m)
@@ -46,11 +50,15 @@ func (p *Peer) receive(from string, typ int, payload []byte) {
 }
 
 func (p *Peer) paid(swapID string, typ int) {
+	p.mu.Lock()
 	p.PaidInvoices = append(p.PaidInvoices, EvPaid{SwapID: swapID, InvType: typ})
+	p.mu.Unlock()
 }
 
 // Take removes and returns the first inbox message of the given type (nil if none).
 func (p *Peer) Take(typ int) *Received {
+	p.mu.Lock()
+	defer p.mu.Unlock()
 	for i, m := range p.Inbox {
 		if m.Type == typ {
 			p.Inbox = append(p.Inbox[:i:i], p.Inbox[i+1:]...)
@@ -62,6 +70,8 @@ func (p *Peer) Take(typ int) *Received {
 
 // Count returns how many inbox messages have the given type.
 func (p *Peer) Count(typ int) int {
+	p.mu.Lock()
+	defer p.mu.Unlock()
 	c := 0
 	for _, m := range p.Inbox {
 		if m.Type == typ {
